@@ -73,21 +73,28 @@ def sc_restart(ident, kind, kill, latch, sig, second_kill=None):
                 meta=dict(family="restart", kind=kind, kill=kill, latch=latch, sig=sig, second_kill=second_kill))
 
 
-def sc_compete(ident, nsched, delays, hold, fail_first, kill=None, latch_at=None):
-    """C05 (c): nsched experiments with different names on one workspace submit the same job"""
+def sc_compete(ident, nsched, delays, hold, fail_first, kill=None, latch_at=None, barrier=True):
+    """C05 (c): nsched experiments with different names on one workspace submit the same job.
+    barrier: every experiment waits, once entered, for a common go file, then delays[k] seconds"""
     runs, script = [], []
     files = {"hold.1": str(hold)}
     if latch_at is None:
         files["latch.all"] = ""
     else:
-        script.append(dict(when={"t": latch_at}, do={"touch": "latch.all"}))
+        script.append(dict(when={"after": [0, latch_at]}, do={"touch": "latch.all"}))
     if fail_first:
         files["fail.1"] = "1"
     for k in range(nsched):
         sid = f"S{k}"
         r = dict(sid=sid, slot=k, run=0, xpname=f"x{k}")
+        if barrier:
+            r.update(barrier="go", post_delay=delays[k])
+            script.append(dict(when={"t": 0}, do={"start": [sid, 0]}))
+        else:
+            script.append(dict(when={"t": delays[k]}, do={"start": [sid, 0]}))
         runs.append(r)
-        script.append(dict(when={"t": delays[k]}, do={"start": [sid, 0]}))
+    go = dict(when={"all": [{"phase": [f"S{k}", 0, "entered"]} for k in range(nsched)]} if barrier else {"t": 0}, do={"touch": "go"})
+    script.insert(0, go)
     if kill is not None:
         k, n = kill
         runs[k]["kill"] = dict(n=n, sig="KILL", funcs=KILLFUNCS + ["aio_submit"])
@@ -95,7 +102,7 @@ def sc_compete(ident, nsched, delays, hold, fail_first, kill=None, latch_at=None
         script.append(dict(when={"dead": [f"S{k}", 0]}, do={"start": [f"S{k}", 1]}))
     return dict(id=ident, kind="one", tags=[1], timeout=50, files=files, runs=runs, script=script,
                 meta=dict(family="compete", nsched=nsched, delays=delays, hold=hold, fail_first=fail_first, kill=kill,
-                          latch_at=latch_at))
+                          latch_at=latch_at, barrier=barrier))
 
 
 def sc_done_marker(ident, pre, nsched, concurrent, real_first):
